@@ -22,10 +22,12 @@ pub(crate) struct SlotStorage {
     pub uploaded: [Option<(Bytes32, UploadedBytecode)>; 2],
     pub blobs: [Option<(BlobId, BlobBytes)>; 2],
     pub assets: [Option<(ContractsAssetKey, Word)>; 4],
+    pub code: [Option<(ContractId, Vec<u8>)>; 2],
+    pub state: [Option<(crate::storage::ContractsStateKey, Vec<u8>)>; 3],
 }
 impl SlotStorage {
     pub fn new() -> Self {
-        Self { cp_version: 0, st_version: 0, cp_table: [None, None], st_table: [None, None], uploaded: [None, None], blobs: [None, None], assets: [None, None, None, None] }
+        Self { cp_version: 0, st_version: 0, cp_table: [None, None], st_table: [None, None], uploaded: [None, None], blobs: [None, None], assets: [None, None, None, None], code: [None, None], state: [None, None, None] }
     }
     pub fn uploaded_get(&self, k: &Bytes32) -> Option<&UploadedBytecode> {
         for s in self.uploaded.iter() { if let Some((kk, v)) = s { if kk == k { return Some(v) } } }
@@ -40,6 +42,15 @@ impl SlotStorage {
         for s in self.assets.iter() { if let Some((kk, v)) = s { if kk == k { return Some(*v) } } }
         None
     }
+    pub fn code_get(&self, k: &ContractId) -> Option<&Vec<u8>> {
+        for s in self.code.iter() { if let Some((kk, v)) = s { if kk == k { return Some(v) } } }
+        None
+    }
+    pub fn state_get(&self, k: &crate::storage::ContractsStateKey) -> Option<&Vec<u8>> {
+        for s in self.state.iter() { if let Some((kk, v)) = s { if kk == k { return Some(v) } } }
+        None
+    }
+    pub fn state_count(&self) -> usize { self.state.iter().filter(|s| s.is_some()).count() }
     pub fn cp_has(&self, v: u32) -> bool { self.cp_table.iter().any(|s| *s == Some(v)) }
     pub fn cp_count(&self) -> usize { self.cp_table.iter().filter(|s| s.is_some()).count() }
     pub fn st_get(&self, v: u32) -> Option<Bytes32> {
@@ -131,8 +142,42 @@ macro_rules! untouched_bytes_table {
         }
     };
 }
-untouched_bytes_table!(ContractsRawCode);
-untouched_bytes_table!(ContractsState);
+macro_rules! bytes_table {
+    ($T:ty, $field:ident) => {
+        impl StorageInspect<$T> for SlotStorage {
+            type Error = Infallible;
+            fn get(&self, k: &<$T as Mappable>::Key) -> Result<Option<Cow<'_, <$T as Mappable>::OwnedValue>>, Infallible> {
+                for s in self.$field.iter() { if let Some((kk, v)) = s { if kk == k { return Ok(Some(Cow::Owned(<$T as Mappable>::OwnedValue::from(v.clone())))) } } }
+                Ok(None)
+            }
+            fn contains_key(&self, k: &<$T as Mappable>::Key) -> Result<bool, Infallible> {
+                for s in self.$field.iter() { if let Some((kk, _)) = s { if kk == k { return Ok(true) } } }
+                Ok(false)
+            }
+        }
+        impl StorageMutate<$T> for SlotStorage {
+            fn replace(&mut self, k: &<$T as Mappable>::Key, v: &<$T as Mappable>::Value) -> Result<Option<<$T as Mappable>::OwnedValue>, Infallible> {
+                Ok(put(&mut self.$field, k, v.to_vec()).map(<$T as Mappable>::OwnedValue::from))
+            }
+            fn take(&mut self, _k: &<$T as Mappable>::Key) -> Result<Option<<$T as Mappable>::OwnedValue>, Infallible> { unimplemented!() }
+        }
+        impl StorageSize<$T> for SlotStorage {
+            fn size_of_value(&self, _k: &<$T as Mappable>::Key) -> Result<Option<usize>, Infallible> { unimplemented!() }
+        }
+        impl StorageRead<$T> for SlotStorage {
+            fn read_exact(&self, _k: &<$T as Mappable>::Key, _o: usize, _b: &mut [u8]) -> Result<Result<usize, fuel_storage::StorageReadError>, Infallible> { unimplemented!() }
+            fn read_zerofill(&self, _k: &<$T as Mappable>::Key, _o: usize, _b: &mut [u8]) -> Result<Result<usize, fuel_storage::StorageReadError>, Infallible> { unimplemented!() }
+            fn read_alloc(&self, _k: &<$T as Mappable>::Key) -> Result<Option<Vec<u8>>, Infallible> { unimplemented!() }
+        }
+        impl StorageWrite<$T> for SlotStorage {
+            fn write_bytes(&mut self, k: &<$T as Mappable>::Key, b: &[u8]) -> Result<(), Infallible> { put(&mut self.$field, k, b.to_vec()); Ok(()) }
+            fn replace_bytes(&mut self, _k: &<$T as Mappable>::Key, _b: &[u8]) -> Result<Option<Vec<u8>>, Infallible> { unimplemented!() }
+            fn take_bytes(&mut self, _k: &<$T as Mappable>::Key) -> Result<Option<Vec<u8>>, Infallible> { unimplemented!() }
+        }
+    };
+}
+bytes_table!(ContractsRawCode, code);
+bytes_table!(ContractsState, state);
 impl StorageInspect<ContractsAssets> for SlotStorage {
     type Error = Infallible;
     fn get(&self, key: &ContractsAssetKey) -> Result<Option<Cow<'_, Word>>, Infallible> { Ok(self.asset_get(key).map(Cow::Owned)) }
